@@ -2,14 +2,18 @@
 
  1 translate   same translator as C11 (translate/effects.py): collect_possible_reads, the statement visitor,
                visitFunction, isCompileTimeComputable, CompileTimeComputableValues, StatementBuilder::collectDependencies,
-               visitProcess -> lean/UtapModel/Gen/EffectGen.lean
+               visitProcess; checkType (children of a type that are checked), every call of checkType, strip_array and the
+               variable branch of Document::accept's frame walk -> lean/UtapModel/Gen/EffectGen.lean
  2 prove       UtapModel.Props.C13: an accepted compile-time context depends on constants only (through function bodies
-               and initialisers, any depth); `restricted` closure complete for initialiser chains; exception set computed
+               and initialisers, any depth); `restricted` closure complete for initialiser chains; exception set computed;
+               every size / bound anywhere in a type reaches the checks (Model/TypeWalk.lean: C13_type_bounds_checked,
+               C13_type_sites_complete, C13_strip_array_reaches_base)
  3 correspond  real function bodies / context expressions / template restricted sets (harness/c13.cpp) through the Lean
                model (drv_c13): depends sets, isCompileTimeComputable, restricted sets compared one by one
- 4 search      direct oracle on the implementation: compile-time contexts x dependence chains of length 0..4 to a mutable
-               variable must be rejected, the same chain ending in a constant accepted; free process parameters reaching an
-               array size must be rejected; witnesses of the exception set replayed
+ 4 search      direct oracle on the implementation: compile-time contexts (also behind typedef names between array levels,
+               in initialisers of such variables, in the range of quantifier binders with any body) x dependence chains of
+               length 0..4 to a mutable variable must be rejected, the same chain ending in a constant accepted; free
+               process parameters reaching an array size must be rejected; witnesses of the exception set replayed
 """
 import os
 import re
@@ -58,11 +62,37 @@ def ct_contexts():
     c["initialiser/template"] = (lambda e: dict(tdecl="int y = %s;" % e), [NC])
     c["initialiser/array-element"] = (lambda e: dict(gpost="int y[2] = {1, %s};" % e), [NC])
     c["initialiser/struct-field"] = (lambda e: dict(gpost="struct { int a; int b; } y = {%s, 1};" % e), [NC])
+    # a matrix of rows: the element type of the array is a typedef NAME of another array type (or of a record), so the inner
+    # sizes / bounds sit behind a name between two array levels, and the initialiser belongs to a variable of such a type
+    c["array-size/row-typedef"] = (lambda e: dict(gpost="typedef int row_t[%s]; row_t z[2];" % e), [NC])
+    c["array-size/row-typedef-template"] = (lambda e: dict(tdecl="typedef int row_t[%s]; row_t z[2];" % e), [NC])
+    c["array-size/row-typedef-twice"] = (lambda e: dict(gpost="typedef int row_t[%s]; typedef row_t mat_t[2]; mat_t z[2];" % e), [NC])
+    c["array-size/row-typedef-function-local"] = (lambda e: dict(gpost="typedef int row_t[%s]; void lf() { row_t z[2]; z[0][0] = 1; }" % e), [NC])
+    c["range-bound/row-typedef-cell"] = (lambda e: dict(gpost="typedef int[0, %s] cell_t; typedef cell_t row_t[2]; row_t z[2];" % e), [NC])
+    c["initialiser/matrix-of-rows"] = (lambda e: dict(gpost="typedef int row_t[2]; row_t y[2] = {{1, %s}, {1, 2}};" % e), [NC])
+    c["initialiser/matrix-of-rows-template"] = (lambda e: dict(tdecl="typedef int row_t[2]; row_t y[2] = {{1, %s}, {1, 2}};" % e), [NC])
+    c["initialiser/matrix-of-rows-const"] = (lambda e: dict(gpost="typedef int row_t[2]; const row_t y[2] = {{1, %s}, {1, 2}};" % e), [NC])
+    c["initialiser/matrix-of-rows-meta"] = (lambda e: dict(gpost="typedef int row_t[2]; meta row_t y[2] = {{1, %s}, {1, 2}};" % e), [NC])
+    c["initialiser/array-of-record-typedef"] = (lambda e: dict(gpost="typedef struct { int a[2]; int b; } rec_t; "
+                                                               "rec_t y[2] = {{{1, %s}, 1}, {{1, 2}, 2}};" % e), [NC])
+    # the range of a quantifier binder is not an operand of the quantified expression: whatever the body is (the binder itself, an
+    # expression of another type, a constant), the bounds of the binder have to be computable on their own
+    c["range-bound/sum-binder-scaled-body"] = (lambda e: dict(guard="(sum (i : int[0, %s]) 2 * i) >= 0" % e), [NC])
+    c["range-bound/sum-binder-constant-body"] = (lambda e: dict(guard="(sum (i : int[0, %s]) C) >= 0" % e), [NC])
+    c["range-bound/sum-binder-in-initialiser"] = (lambda e: dict(gpost="int y = sum (i : int[0, %s]) (i + 1);" % e), [NC])
+    c["range-bound/sum-binder-in-array-size"] = (lambda e: dict(gpost="int z[(sum (i : int[0, %s]) C) + 1];" % e), [NC])
+    c["range-bound/sum-binder-in-function"] = (lambda e: dict(gpost="int qf() { return sum (i : int[0, %s]) (i > 0 ? 1 : 0); }" % e), [NC])
+    c["range-bound/sum-binder-nested"] = (lambda e: dict(guard="(sum (i : int[0, 1]) sum (j : int[0, %s]) (i + j)) >= 0" % e), [NC])
+    c["range-bound/sum-binder-in-argument"] = (lambda e: dict(params="const int n", system="Q = P(sum (i : int[0, %s]) 2 * i);\nsystem Q;" % e), [IA, NC])
+    c["range-bound/forall-binder-other-body"] = (lambda e: dict(guard="forall (i : int[0, %s]) 2 * i >= 0" % e), [NC])
+    c["range-bound/exists-binder-constant-body"] = (lambda e: dict(guard="exists (i : int[0, %s]) CA[1] >= 0" % e), [NC])
     c["argument/by-value"] = (lambda e: dict(params="int n", system="Q = P(%s);\nsystem Q;" % e), [IA])
     c["argument/by-value-const"] = (lambda e: dict(params="const int n", system="Q = P(%s);\nsystem Q;" % e), [IA])
     c["argument/const-reference"] = (lambda e: dict(params="const int &n", system="Q = P(%s);\nsystem Q;" % e), [IA])
     return c
 
+
+PLACEMENT_VARIANTS = ("row-typedef", "matrix-of-rows", "array-of-record", "sum-binder", "forall-binder", "exists-binder")
 
 READ_FORMS = {  # statement form in which the function reads %(R)s
     "return": "return %(R)s;",
@@ -140,6 +170,8 @@ def gen_chains(ctx):
     for cn, (mk, allowed) in ct_contexts().items():
         for depth in (0, 1, 2, 3, 4):
             reps = 8 if not ctx.thorough else 24
+            if cn.split("/")[-1].startswith(PLACEMENT_VARIANTS) and not ctx.thorough:
+                reps = 4      # these differ from a context above in where the expression stands only
             for rep in range(reps):
                 i = r.randrange(len(MUT_ENDS))
                 st = r.getstate()
@@ -288,10 +320,12 @@ def gen_random_programs(ctx):
     cases = []
     nprog = 800 if not ctx.thorough else 6000
     for pi in range(nprog):
-        prog = C11.RandProg(r, r.randint(2, 6))
-        # which globals each function touches, transitively (independent of the library: regex over the generated text)
+        prog = C11.RandProg(r, r.randint(2, 6), shadow=0.3)
+        # which globals each function touches, transitively (independent of the library: regex over the generated text -- the text
+        # before a parameter / local was given the name of a global only the callees touch)
         touch = {}
-        for name, text, params in prog.funs:
+        for name, _, params in prog.funs:
+            text = prog.plain[name]
             body = text[text.index("{"):]
             t = set(GLOBAL_RE.findall(body))
             for other in touch:
@@ -358,7 +392,8 @@ def run(ctx):
         core.write_if_changed(GEN, text)
         cov["translated"] = {"read_call_kinds": info["read_call"], "random_kinds": len(info["random"]),
                              "statement_classes": len(info["classes"]), "readsPropagatesRandom": info["readsPropagatesRandom"],
-                             "dependsCollectsRandom": info["dependsCollectsRandom"]}
+                             "dependsCollectsRandom": info["dependsCollectsRandom"],
+                             "checkType_case_rows": info["checkType_rows"], "checkType_call_sites": info["checkType_sites"]}
     except effects.TranslateError as ex:
         tie_error = str(ex)
         ctx.log("translator failed:", ex)
